@@ -11,6 +11,7 @@ import (
 	"crypto/sha1"
 	"crypto/sha256"
 	"fmt"
+	"io"
 	"math/big"
 	"strings"
 
@@ -89,6 +90,44 @@ func safely(fn func() string) (out string) {
 func hexN(n *big.Int) string { return hc.Hex(n.Bytes()) }
 
 type cmp struct{ line, impl string }
+
+// shortReader delivers a logical tape through PRNG-chosen SHORT reads (1..n bytes, nil error), as an
+// io.Reader is allowed to: the functions under test must collect their random bytes with io.ReadFull,
+// so their result may depend on the tape only, never on the chunking.
+type shortReader struct {
+	data []byte
+	rng  *hc.RNG
+	mode int
+}
+
+func shortReads(tape []byte, r *hc.RNG) *shortReader {
+	return &shortReader{data: tape, rng: r.Fork(), mode: r.Intn(4)}
+}
+
+func (s *shortReader) Read(p []byte) (int, error) {
+	if len(s.data) == 0 {
+		return 0, io.EOF
+	}
+	if len(p) == 0 {
+		return 0, nil
+	}
+	n := len(p)
+	switch s.mode {
+	case 0:
+		n = 1
+	case 1:
+		n = 1 + s.rng.Intn(len(p))
+	case 2:
+		n = 1 + s.rng.Intn(min(len(p), 16))
+	default: // mostly whole buffers, sometimes one byte short
+		if len(p) > 1 && s.rng.Chance(30) {
+			n = len(p) - 1
+		}
+	}
+	n = copy(p[:n], s.data)
+	s.data = s.data[n:]
+	return n, nil
+}
 
 // ---- independent reference of the specification text (core.telegram.org/mtproto/auth_key, RSA_PAD)
 
@@ -201,7 +240,7 @@ func run(c *hc.Ctx) error {
 			tape := r.Bytes(tl)
 			var enc []byte
 			got := safely(func() string {
-				out, err := crypto.RSAPad(data, &k.priv.PublicKey, bytes.NewReader(tape))
+				out, err := crypto.RSAPad(data, &k.priv.PublicKey, shortReads(tape, r))
 				if err != nil {
 					return tag(err)
 				}
@@ -223,6 +262,10 @@ func run(c *hc.Ctx) error {
 			}
 			c.Count("pad.ok")
 			add(line, got)
+			if len(tape) < 192-l+32 { // a result although the random source cannot have supplied padding and a temp key
+				c.Fail("rsapad-short-source-accepted", line, fmt.Sprintf("RSAPad succeeded with only %d random bytes (needs %d for the padding and 32 per temp key)", len(tape), 192-l))
+				continue
+			}
 			// monitor: the ciphertext is the RSA_PAD construction of the specification (independent reference)
 			if want := refRSAPad(data, tape, k.priv.N, k.priv.E); !bytes.Equal(want, enc) {
 				c.Fail("rsapad-not-spec", line, fmt.Sprintf("RSAPad = %s, specification (steps 1-9) gives %s", hc.Hex(enc), hc.Hex(want)))
@@ -315,7 +358,7 @@ func run(c *hc.Ctx) error {
 			}
 			var enc []byte
 			got := safely(func() string {
-				out, err := crypto.RSAEncryptHashed(data, &k.priv.PublicKey, bytes.NewReader(tape))
+				out, err := crypto.RSAEncryptHashed(data, &k.priv.PublicKey, shortReads(tape, r))
 				if err != nil {
 					return tag(err)
 				}
@@ -414,7 +457,7 @@ func run(c *hc.Ctx) error {
 		wantBlock := i%2 == 1 // odd: the *decrypted* block key_aes_encrypted starts with a zero byte; even: the ciphertext
 		for t := 0; t < 20000; t++ {
 			data, tape := r.Bytes(l), r.Bytes(192-l+32*8)
-			enc, err := crypto.RSAPad(data, &k.priv.PublicKey, bytes.NewReader(tape))
+			enc, err := crypto.RSAPad(data, &k.priv.PublicKey, shortReads(tape, r))
 			if err != nil || (!wantBlock && enc[0] != 0) {
 				continue
 			}
@@ -451,7 +494,7 @@ func run(c *hc.Ctx) error {
 				}
 				continue
 			}
-			enc, err := crypto.RSAEncryptHashed(data, &k.priv.PublicKey, bytes.NewReader(tape))
+			enc, err := crypto.RSAEncryptHashed(data, &k.priv.PublicKey, shortReads(tape, r))
 			if err != nil || (!wantBlock && enc[0] != 0) {
 				continue
 			}
@@ -546,7 +589,7 @@ func run(c *hc.Ctx) error {
 		if err == nil && len(pk) == 1 {
 			data := bytes.Repeat([]byte{'a'}, 144)
 			tape := make([]byte, 48+32*4)
-			out, err := crypto.RSAPad(data, pk[0], bytes.NewReader(tape))
+			out, err := crypto.RSAPad(data, pk[0], shortReads(tape, r))
 			if err == nil {
 				line := fmt.Sprintf("pad %s %s %s %s", hexN(pk[0].N), hexN(big.NewInt(int64(pk[0].E))), hc.Hex(data), hc.Hex(tape))
 				c.Eval(line, true)
@@ -557,7 +600,7 @@ func run(c *hc.Ctx) error {
 	}
 
 	c.Res.Exhaustive = true
-	c.Res.Rule = "RSA_PAD: every data length 0..147 × several random tapes (random/constant data, 6..12 temp keys, some short tapes) over 4 keys (testutil key + 3 PRNG-generated 2047/2048-bit moduli chosen so that the retry branch `key_aes_encrypted ≥ N` is taken often); hashed scheme: every data length 0..238; decoders additionally on one-bit mutations, foreign keys and random inputs; directed (searched) cases where the ciphertext or the decrypted RSA block starts with a zero byte (padding/normalisation of big integers); non-trivial = an encryption that succeeded, or any decoder input; distinct = distinct request line"
+	c.Res.Rule = "every random source is delivered through PRNG-chosen short reads (1 byte, 1..n, 1..16, n−1 bytes per Read, nil error) — results must depend on the logical tape only; RSA_PAD: every data length 0..147 × several random tapes (random/constant data, 6..12 temp keys, some short tapes) over 4 keys (testutil key + 3 PRNG-generated 2047/2048-bit moduli chosen so that the retry branch `key_aes_encrypted ≥ N` is taken often); hashed scheme: every data length 0..238; decoders additionally on one-bit mutations, foreign keys and random inputs; directed (searched) cases where the ciphertext or the decrypted RSA block starts with a zero byte (padding/normalisation of big integers); non-trivial = an encryption that succeeded, or any decoder input; distinct = distinct request line"
 	c.PartialNote("rejection of foreign-key/altered ciphertexts is conditional on SHA-256/SHA-1 preimage resistance: exercised, and proved only in the form success ⇒ hash equation")
 
 	lines := make([]string, len(cs))
